@@ -698,7 +698,8 @@ class C05(EngineCheck):
                 G.focus_shared_failure(draw, case['program'], case['variant'])
             return _sanitize(case)
 
-        return st.one_of(*([s()] * 12), shared_failure_templates(tier))
+        return st.one_of(*([s()] * 12), shared_failure_templates(tier),
+                         candidate_lazy_failure_templates(tier))
 
     def oracle(self, case, refres, obs):
         v = []
@@ -1022,6 +1023,57 @@ def shared_failure_templates(draw, tier):
     return {'program': prog, 'variant': var, 'scheds': scheds, 'template': 'shared-failure'}
 
 
+@st.composite
+def candidate_lazy_failure_templates(draw, tier):
+    """directed shape: a one-of candidate needs a lazy construct (switch or nested one-of, whose helper task the
+    engine creates itself) AND a plain dependency that fails; the failing dependency is held back and released at
+    every position of the run, so the candidate is abandoned while its helper task is at every stage (not started,
+    decider running, selected case running, done). The next candidate (or the one-of error) must be the outcome."""
+    def N(nid, params=(), mode='gated', **kw):
+        d = {'id': nid, 'params': [list(p) for p in params], 'mode': mode}
+        d.update(kw)
+        return d
+    ext = st.sampled_from(['gated', 'gated', 'gated', 'thread', 'coro'])
+    nodes = [N('n0', mode=draw(st.sampled_from(['coro', 'inline', 'gated'])))]
+
+    def add(params, **kw):
+        nid = f'n{len(nodes)}'
+        nodes.append(N(nid, params, mode=draw(ext), **kw))
+        return nid
+
+    def chain(src, k):
+        for _ in range(k):
+            src = add([('k0', ['in', src])])
+        return src
+
+    fail = chain('n0', draw(st.integers(1, 2)))
+    ca = chain('n0', draw(st.integers(1, 2)))
+    cb = chain('n0', 1)
+    kind = draw(st.sampled_from(['sw', 'sw', 'oneof']))
+    var = {'x': 0, 'nodes': {fail: {'outcomes': [], 'tail': 'ErrA'}}}
+    if kind == 'sw':
+        dec = chain('n0', draw(st.integers(1, 2)))
+        lazy = ['sw', 'sw_cand' if draw(st.booleans()) else None, dec, [['L0', ca], ['L1', cb]]]
+        var['nodes'][dec] = {'label': draw(st.sampled_from(['L0', 'L0', 'L1']))}
+    else:
+        lazy = ['oneof', [ca, cb]]
+        if draw(st.booleans()):
+            var['nodes'][ca] = {'outcomes': [], 'tail': 'ErrB'}
+    params = [('k0', lazy), ('k1', ['in', fail])]
+    if draw(st.booleans()):
+        params.reverse()
+        params = [(f'k{i}', m) for i, (_, m) in enumerate(params)]
+    c1 = add(params)
+    c2 = add([('k0', ['in', 'n0'])] if draw(st.booleans()) else [])
+    if draw(st.integers(0, 3)) == 0:
+        var['nodes'][c2] = {'outcomes': [], 'tail': 'ErrC'}
+    cons = add([('k0', ['oneof', [c1, c2]])])
+    out = chain(cons, draw(st.integers(0, 1)))
+    prog = {'nodes': nodes, 'output': out}
+    scheds = [{'kind': 'delay', 'node': fail, 'after': k} for k in range(0, 10)]
+    return {'program': prog, 'variant': var, 'scheds': scheds, 'template': 'candidate-lazy-failure'}
+
+
 def oracle_oneof_order(o, program, refres):
     """a candidate node's body starts only after every earlier candidate has failed (checked where the reference
     attributes the earlier candidate's failure to node bodies only)"""
@@ -1073,7 +1125,8 @@ class C10(EngineCheck):
     def strategy(self, tier):
         kw = self.gen_kwargs(tier)
         base = G.cases(**kw).map(_sanitize).filter(lambda c: S.has_kind(c['program'], 'oneof'))
-        return st.one_of(base, base, base, base, base, base, base, base, base, shared_failure_templates(tier))
+        return st.one_of(base, base, base, base, base, base, base, base, base, shared_failure_templates(tier),
+                         candidate_lazy_failure_templates(tier))
 
     def oracle(self, case, refres, obs):
         v = []
